@@ -393,3 +393,87 @@ Proof.
   destruct (tick_pull g now) as [[g1 started] fin]. simpl in *. subst fin. simpl.
   apply start_push_all. assumption.
 Qed.
+
+(* ---- attempts are created by the triggers only ------------------------------------------------------------------ *)
+Definition is_trigger (e : event) : bool :=
+  match e with
+  | ERtmpSub _ _ _ | EFlvSub _ _ _ | ETsSub _ _ _ | ERtspPlay _ | EStartPull _ _ _ _ | ETick _ => true
+  | _ => false
+  end.
+
+Lemma get_or_create_cnt : forall cf st s, st_cnt (fst (get_or_create cf st s)) = st_cnt st /\ st_atts (fst (get_or_create cf st s)) = st_atts st.
+Proof. intros. unfold get_or_create. destruct (get_group st s); split; reflexivity. Qed.
+
+Lemma admit_pub_cnt : forall cf st sl s n c,
+  st_cnt (fst (fst (admit_pub cf st sl s n c))) = st_cnt st /\ length (st_atts (fst (fst (admit_pub cf st sl s n c)))) = length (st_atts st).
+Proof.
+  intros. unfold admit_pub. destruct (get_or_create_cnt cf st s) as [H1 H2].
+  destruct (get_or_create cf st s) as [st1 g]. simpl in *. destruct (c && has_in g); cbn [fst]; [rewrite H1, H2; split; reflexivity|].
+  unfold next_pipe. cbn [fst snd]. rewrite <- H1, <- H2. split; reflexivity.
+Qed.
+
+Lemma upd_att_length : forall l s i x, length (upd_att s i x l) = length l.
+Proof. induction l as [|a t IH]; intros; simpl; [reflexivity|]. destruct (_ && _); simpl; [reflexivity|rewrite IH; reflexivity]. Qed.
+
+(* no event other than a subscriber arrival, an RTSP PLAY, start_relay_pull or a tick creates a relay
+   attempt: the attempt counters and the number of attempts stay the same *)
+Theorem attempts_only_by_triggers : forall fx cf st e, is_trigger e = false ->
+  st_cnt (fst (fst (step fx cf st e))) = st_cnt st /\
+  length (st_atts (fst (fst (step fx cf st e)))) = length (st_atts st).
+Proof.
+  intros fx cf st e Ht. destruct e; simpl in Ht; try discriminate Ht; cbn [step].
+  - destruct (fresh st n); cbn [negb fst]; [|split; reflexivity]. destruct deny; cbn [fst]; [split; reflexivity|].
+    pose proof (admit_pub_cnt cf st PsRtmp s n true) as H. destruct (admit_pub cf st PsRtmp s n true) as [[st1 ok] g]. cbn [fst] in *.
+    destruct ok; exact H.
+  - destruct (fresh st n); cbn [negb fst]; [|split; reflexivity]. destruct deny; cbn [fst]; [split; reflexivity|].
+    pose proof (admit_pub_cnt cf st PsRtsp s n true) as H. destruct (admit_pub cf st PsRtsp s n true) as [[st1 ok] g]. cbn [fst] in *.
+    destruct ok; exact H.
+  - destruct (fresh st n); cbn [negb fst]; [|split; reflexivity]. destruct deny; cbn [fst]; [split; reflexivity|].
+    unfold admit_sub. destruct (get_or_create_cnt cf st s) as [H1 H2]. destruct (get_or_create cf st s) as [st1 g]. simpl in H1, H2.
+    destruct (g_disposed g); cbn [fst]; [split; reflexivity|]. cbn [fst]. rewrite <- H1, <- H2. split; reflexivity.
+  - destruct (fresh st n); cbn [negb fst]; [|split; reflexivity].
+    pose proof (admit_pub_cnt cf st PsCust s n true) as H. destruct (admit_pub cf st PsCust s n true) as [[st1 ok] g]. cbn [fst] in *.
+    destruct ok; exact H.
+  - destruct (fresh st n); cbn [negb fst]; [|split; reflexivity].
+    pose proof (admit_pub_cnt cf st PsPs s n (fx_f09 fx)) as H. destruct (admit_pub cf st PsPs s n (fx_f09 fx)) as [[st1 ok] g]. cbn [fst] in *.
+    destruct ok; exact H.
+  - destruct (find_sess n (st_sess st)) as [x|]; cbn [fst]; [|split; reflexivity].
+    destruct (s_gone x); cbn [fst]; [split; reflexivity|].
+    destruct (s_kind x); cbn [fst]; try (split; reflexivity);
+      unfold depart_pub, depart_sub;
+      match goal with |- context[get_group ?a ?b] => destruct (get_group a b) end; cbn [fst]; try (split; reflexivity);
+      destruct (fx_f26 fx && _); split; reflexivity.
+  - destruct (get_group st s) as [g|]; cbn [fst]; [|split; reflexivity].
+    unfold kick_group. destruct t as [n|s' i].
+    + destruct (find_sess n (st_sess st)) as [x|]; cbn [fst]; [|split; reflexivity].
+      destruct (s_kind x); cbn [fst]; try (split; reflexivity);
+        match goal with |- context[if ?c then _ else _] => destruct c end; split; reflexivity.
+    + destruct (_ && _); cbn [fst]; [|split; reflexivity].
+      destruct (stop_and_del fx s _) as [[g1 a] ns]. cbn [fst]. destruct a; simpl; [|split; reflexivity].
+      split; [reflexivity|apply upd_att_length].
+  - destruct (get_group st s) as [g|]; cbn [fst]; [|split; reflexivity].
+    destruct (stop_and_del fx s _) as [[g1 a] ns]. cbn [fst]. destruct a; simpl; [|split; reflexivity].
+    split; [reflexivity|apply upd_att_length].
+  - destruct (find_att s i (st_atts st)) as [a|]; cbn [fst]; [|split; reflexivity].
+    destruct (get_group st s) as [g|]; cbn [fst]; [|split; reflexivity].
+    destruct (a_state a); cbn [fst]; try (split; reflexivity).
+    destruct (has_in g || _); cbn [fst]; (split; [reflexivity|apply upd_att_length]).
+  - destruct (find_att s i (st_atts st)) as [a|]; cbn [fst]; [|split; reflexivity].
+    destruct (get_group st s) as [g|]; cbn [fst]; [|split; reflexivity].
+    destruct (a_state a); cbn [fst]; try (split; reflexivity). split; [reflexivity|apply upd_att_length].
+  - destruct (find_att s i (st_atts st)) as [a|]; cbn [fst]; [|split; reflexivity].
+    destruct (get_group st s) as [g|]; cbn [fst]; [|split; reflexivity].
+    destruct (a_state a); cbn [fst]; try (split; reflexivity). split; [reflexivity|apply upd_att_length].
+  - match goal with |- context[push_event st s t false ?nx] => generalize nx; intros next end.
+    unfold push_event. destruct (get_group st s) as [g|]; cbn [fst]; [|split; reflexivity].
+    destruct (nth_error (g_push g) t); cbn [fst]; [|split; reflexivity]. destruct (_ && _); split; reflexivity.
+  - unfold push_event. destruct (get_group st s) as [g|]; cbn [fst]; [|split; reflexivity].
+    destruct (nth_error (g_push g) t); cbn [fst]; [|split; reflexivity]. destruct (_ && _); split; reflexivity.
+  - unfold push_event. destruct (get_group st s) as [g|]; cbn [fst]; [|split; reflexivity].
+    destruct (nth_error (g_push g) t); cbn [fst]; [|split; reflexivity]. destruct (_ && _); split; reflexivity.
+  - split; reflexivity.
+  - destruct (st_disposed st); split; reflexivity.
+  - destruct (find_sess n (st_sess st)) as [x|]; cbn [fst]; [|split; reflexivity].
+    destruct (s_kind x); cbn [fst]; try (split; reflexivity);
+    match goal with |- context[if ?c then _ else _] => destruct c end; split; reflexivity.
+Qed.
